@@ -75,6 +75,10 @@ package mapping
 //@   ensures [default-used] ret(getDefault, 1) ==> calls(fillDurationValue) + calls(fillSliceWithDefault) + calls(setValue) == 1 && calls(newInitError) == 0 && calls(optional) == 0
 //@   ensures [default-value-passed] ret(getDefault, 1) && calls(setValue) == 1 ==> arg(setValue, 2) == ret(getDefault, 0) && result == ret(setValue)
 //@   ensures [optional-stays-zero] !ret(getDefault, 1) && calls(optional) == 1 && ret(optional) ==> result == nil && calls(setValue) + calls(processFieldNotFromString) + calls(newInitError) == 0
+// an absent container / nested struct is filled from the empty object only when the field is not optional (an
+// optional one stays as it is - nil pointer, zero struct - whatever its members' defaults are)
+//@   ensures [filled-from-nothing-only-when-not-optional] calls(processFieldNotFromString) >= 1 ==> calls(optional) == 1 && !ret(optional) && before(optional, processFieldNotFromString) && calls(processFieldNotFromString) == 1 && result == ret(processFieldNotFromString)
+//@   ensures [struct-requiredness-asked-only-when-not-optional] calls(structValueRequired) >= 1 ==> calls(optional) == 1 && !ret(optional) && before(optional, structValueRequired)
 //@   ensures [required-primitive-missing] !ret(getDefault, 1) && calls(newInitError) == 1 ==> result == ret(newInitError) && !ret(optional)
 //@   ensures [no-default-no-set] !ret(getDefault, 1) ==> calls(setValue) + calls(fillSliceWithDefault) + calls(fillDurationValue) == 0
 
